@@ -75,7 +75,8 @@ JudgeRun(g, s, ref) ==
       \* I5 completion: a valid stream, fully supplied, with space always offered, must finish
       v5 == IF s.end.why = "fault" THEN {<<ncalls, "C05-memory-fault-in-call">>}
             ELSE IF s.end.why = "stalled" THEN {<<ncalls, "I6-no-progress-with-input-and-space-available">>}
-            ELSE IF ref.tag = "Valid" /\ ~lenient /\ ~a.finished /\ ~a.space_short /\ s.complete_supply
+            \* (a stream the RFC does not clearly forbid may be REFUSED - with an error code; accepting it without ever finishing is not a refusal)
+            ELSE IF ref.tag = "Valid" /\ (~lenient \/ ~a.sawerr) /\ ~a.finished /\ ~a.space_short /\ s.complete_supply
                  THEN {<<ncalls, "I5-valid-stream-not-finished-" \o s.end.why>>} ELSE {}
       \* an invalid single-fault stream must be reported, with the documented class (only when the spec agrees that the producer's
       \* injected fault made the stream invalid: shortening a code of an incomplete set can leave a perfectly valid stream)
